@@ -247,3 +247,36 @@ def abstract_disc(s):
             elif es[0] in ("shut", "close"):
                 toks.append("D")
     return toks, None
+
+
+def abstract_ka(s):
+    """keep-alive projection with the virtual clock (lean/Mqtt5V/Model/TraceKA.lean):
+      c:<k> keep_alive configured    r async_run     U:<ska|-> CONNACK of a new connection (its Server Keep Alive)    f a read ended with try_again
+      t:<ms> time passes             d:<ms|-> a read starts with this time-out       w:<ping>:<terminal> a write starts (carries a PINGREQ / is a DISCONNECT alone)
+      K / F / A the write ends ok / try_again / aborted        x the client closed      e end of the script line (the execution context is drained)"""
+    toks = []
+    for line, evs, st, t in s.tr:
+        ws = line.split()
+        if not ws or evs == ["<crash>"] or evs == ["<bad-op>"]: break
+        cmd = ws[0]
+        if cmd == "cfg":
+            for kv in ws[1:]:
+                if kv.startswith("ka="): toks.append(f"c:{int(kv[3:])}")
+        elif cmd == "run": toks.append("r")
+        elif cmd == "reconnect":
+            ska = M.plist_parse(ws[3]).get(0x13, [None])[0]
+            toks.append(f"U:{ska if ska is not None else '-'}")
+        elif cmd == "rdone" and len(ws) > 2 and ws[2] == "try_again": toks.append("f")
+        elif cmd == "wdone": toks.append("K" if ws[2] == "ok" else "F" if ws[2] == "try_again" else "A")
+        elif cmd == "advance": toks.append(f"t:{int(ws[1])}")
+        for e in evs:
+            es = e.split()
+            if es[0] == "rd": toks.append("d:" + ("-" if es[3] == "inf" else es[3]))
+            elif es[0] == "wr":
+                pk = [bytes.fromhex(x) if x != "-" else b"" for x in es[2:]]
+                ping = any(p == b"\xc0\x00" for p in pk)
+                term = len(pk) == 1 and pk[0][:1] != b"" and pk[0][0] & 0xF0 == 0xE0
+                toks.append(f"w:{int(ping)}:{int(term)}")
+            elif es[0] == "close": toks.append("x")
+        toks.append("e")
+    return toks, None
